@@ -11,7 +11,7 @@ Verdict(t) ==
   ELSE IF <<o.num, o.den>> # e.val THEN "payload-value@1"
   ELSE IF o.units # e.units THEN "payload-units@1"
   ELSE IF o.masked # e.masked THEN "payload-mask@1"
-  ELSE IF o.alias # "err:FinamDataError" THEN "alias-refused@1"
+  ELSE IF o.alias # (IF t.case.st THEN "err:FinamStaticDataError" ELSE "err:FinamDataError") THEN "alias-refused@1"
   ELSE "ok"
 Init == tid \in 1..Len(Traces) /\ verdict = Verdict(Traces[tid])
 Next == FALSE /\ UNCHANGED <<tid, verdict>>
